@@ -276,6 +276,7 @@ struct Item {
   // TELEGRAM addressed to the host (answer mode): wire bytes only hold the master part; the rest is reactive
   bool expectAnswer = false;
   int answerReaction[2] = {0, 0};  // reaction of the foreign master to the host's response: 0 ACK 1 NAK 2 other 3 silence
+  std::vector<uint8_t> repeatBytes; // master part sent again (once) when the host answers with NAK
 };
 
 class Bus {
@@ -615,6 +616,14 @@ class Bus {
     answerDeadline = lastByteTime + 40 * MS;
     uint8_t zz = answerItem.bytes.size() > 1 ? answerItem.bytes[1] : 0;
     if (hostAnswerWire.size() == 1) {
+      if (b == 0xFF && !answerItem.repeatBytes.empty()) {
+        // NAK: the foreign master repeats its master part once
+        Item rep; rep.kind = Item::TELEGRAM; rep.bytes = answerItem.repeatBytes; rep.origins.assign(rep.bytes.size(), 'F');
+        rep.expectAnswer = true; rep.answerReaction[0] = answerItem.answerReaction[0]; rep.answerReaction[1] = answerItem.answerReaction[1];
+        awaitHostAnswer = false;
+        script.push_front(rep);
+        return;
+      }
       if (b != 0x00 || specIsMaster(zz)) { finishAnswer(false); return; }   // NAK, or ACK of a master-master telegram
       return;
     }
